@@ -1,0 +1,57 @@
+//go:build verif
+
+package nodis
+
+import (
+	"github.com/diiyw/nodis/ds"
+	"github.com/diiyw/nodis/ds/list"
+	"github.com/diiyw/nodis/redis"
+)
+
+// VerifServe runs one command exactly as the Serve callback does.
+func (n *Nodis) VerifServe(conn *redis.Conn, cmd redis.Command) { n.handleCommand(conn, cmd) }
+
+// VerifGC runs one eviction pass; VerifFlush one flush.
+func (n *Nodis) VerifGC()    { n.store.gc() }
+func (n *Nodis) VerifFlush() { n.store.flush() }
+
+// VerifMeta is a copy of one index record.
+type VerifMeta struct {
+	Name       string
+	Expiration int64
+	Value      ds.Value // nil when not in memory
+	Modified   bool
+	Count      int64
+	ValueType  uint8
+}
+
+// VerifDump copies the index in key order (no locks taken: call it when quiescent).
+func (n *Nodis) VerifDump() []VerifMeta {
+	var out []VerifMeta
+	n.store.metadata.Scan(func(key string, m *metadata) bool {
+		out = append(out, VerifMeta{
+			Name:       key,
+			Expiration: m.key.Expiration,
+			Value:      m.value,
+			Modified:   m.state&KeyStateModified == KeyStateModified,
+			Count:      m.count,
+			ValueType:  uint8(m.valueType),
+		})
+		return true
+	})
+	return out
+}
+
+// VerifWatchers lists, per watched key, how many connections the registry holds.
+func (n *Nodis) VerifWatchers() map[string]int {
+	out := map[string]int{}
+	n.store.watchMu.RLock()
+	defer n.store.watchMu.RUnlock()
+	n.store.watchedKeys.Scan(func(key string, l *list.LinkedListG[*redis.Conn]) bool {
+		c := 0
+		l.ForRange(func(*redis.Conn) bool { c++; return true })
+		out[key] = c
+		return true
+	})
+	return out
+}
